@@ -77,8 +77,11 @@ def sh(cmd, cwd=None, timeout=3600):
     return p.returncode, p.stdout.decode(errors='replace')
 
 
-def lake_build():
-    rc, out = sh(['lake', 'build'], cwd=LEAN_DIR, timeout=3000)
+def lake_build(prop=None):
+    """build what this property's check needs: the driver executable, the audit tool and the property module with its
+    dependencies (incl. its regenerated terms).  Other properties' generated files are not this check's business."""
+    targets = ['driver', 'NflowsModel.Audit.Tool'] + (['NflowsModel.Properties.' + prop] if prop else [])
+    rc, out = sh(['lake', 'build'] + targets, cwd=LEAN_DIR, timeout=3000)
     return rc, out
 
 
@@ -245,7 +248,7 @@ def run(ctx, replay):
         except Exception as e:
             ctx.notes.append('generate_lean raised: %r' % (e,))
             ctx.proof_broken.append('Generated.%s (translator raised %s)' % (prop, type(e).__name__))
-    rc, out = lake_build()
+    rc, out = lake_build(prop)
     if rc != 0:
         gen_fail = [l for l in out.splitlines() if 'Generated' in l and ('error' in l or '✖' in l)]
         if gen_fail:
